@@ -253,6 +253,53 @@ def rule_count_kind(ctx: Ctx, prog: Program) -> None:
                             else:
                                 ctx.ok("R-INDEX-KIND", f"{g.qualname}: the returned position is a variable index, as its users demand", nontrivial=False)
     ctx.extra["returned_position_uses"] = n_uses
+    # (b') what a model method appends to a list whose ELEMENTS have a known kind (the variable -> domain table holds shared-domain indices): a value
+    # computed from the length of a list of the other kind is a position in the wrong space (they differ as soon as two variables share a domain)
+    n_app = 0
+    for f in prog.all_functions():
+        if not f.cls:
+            continue
+        counts: Dict[str, Tuple[str, str]] = {}
+        assigns: Dict[str, List[ast.expr]] = {}
+        for n in ast.walk(f.node):
+            if isinstance(n, ast.Assign) and len(n.targets) == 1 and isinstance(n.targets[0], ast.Name):
+                lk = _len_kind(n.value, f.params)
+                if lk:
+                    counts[n.targets[0].id] = lk
+                assigns.setdefault(n.targets[0].id, []).append(n.value)
+        for n in ast.walk(f.node):
+            tgt = arg = None
+            if isinstance(n, ast.Call) and isinstance(n.func, ast.Attribute) and n.func.attr in ("extend", "append") and len(n.args) == 1 and isinstance(n.func.value, ast.Attribute):
+                tgt, arg = n.func.value.attr, n.args[0]
+            elif isinstance(n, ast.AugAssign) and isinstance(n.op, ast.Add) and isinstance(n.target, ast.Attribute):
+                tgt, arg = n.target.attr, n.value
+            if tgt not in VALUES or arg is None:
+                continue
+            want = VALUES[tgt]
+            srcs: List[ast.expr] = [arg]
+            seen_names: Set[str] = set()
+            k = 0
+            while k < len(srcs) and k < 20:  # follow locals back to where they were computed
+                for x in ast.walk(srcs[k]):
+                    if isinstance(x, ast.Name) and x.id not in seen_names and x.id not in counts:
+                        seen_names.add(x.id)
+                        srcs.extend(assigns.get(x.id, []))
+                k += 1
+            used = {x.id for e in srcs for x in ast.walk(e) if isinstance(x, ast.Name) and x.id in counts}
+            direct = [lk for e in srcs for lk in [_len_kind(c, f.params) for c in ast.walk(e) if isinstance(c, ast.Call)] if lk]
+            kinds_in = {counts[u] for u in used} | set(direct)
+            if not kinds_in:
+                continue
+            n_app += 1
+            wrong = sorted(lst for kind, lst in kinds_in if kind != want)
+            if wrong and not any(kind == want for kind, _ in kinds_in):
+                ctx.violation("R-INDEX-KIND", f.path, f.qualname, f"appended-position:{tgt}", f"{f.path}:{n.lineno}",
+                              f"{f.qualname} appends to `{tgt}` (whose elements are {want}es) values computed from the length of `{wrong[0]}` (a number of "
+                              f"{'variables' if want == DOM else 'shared domains'}): for a model in which two variables share a domain the new entries designate the wrong "
+                              "(or a non-existent) shared domain")
+            else:
+                ctx.ok("R-INDEX-KIND", f"{f.qualname}: positions appended to {tgt} are counted in the list of the matching kind", nontrivial=False)
+    ctx.floor("R-INDEX-KIND:appended-positions", n_app, 1)
     # (c) a value that the code uses as a variable index, validated against the number of shared domains
     demands, _, alias, _, _, roles_ = _kind_demands(prog)
     # a parameter is (also) what its callers pass: an argument that its caller uses as a variable index
